@@ -35,6 +35,18 @@ func init() {
 		norm := " " + strings.Join(strings.Fields(strings.TrimSpace(strings.ToLower(in[0]))), " ") + " "
 		c.Case("link_exec", hx(in[0]), hx(norm), hx(in[1]), r.outcome, hx(r.out))
 	})
+	// cond_exec: <element> <a1> <a2> <value wire>:  <E {{if .C}}a1{{else}}a2{{end}}="{{.X}}">  executed with C = true and
+	// C = false; the driver judges the emitted value against the REVIEWED class of the attribute that was
+	// actually written: a safe value of a type that class does not cover must not come out intact
+	reg("cond_exec", 4, func(c *caseWriter, in []string) {
+		text := "<" + in[0] + " {{if .C}}" + in[1] + "{{else}}" + in[2] + `{{end}}="{{.X}}">`
+		fields := []string{hx(in[0]), hx(in[1]), hx(in[2]), hx(in[3])}
+		for _, cond := range []bool{true, false} {
+			r := runTemplate(text, "", map[string]interface{}{"C": cond, "X": valueFromWire(in[3])}, false)
+			fields = append(fields, r.outcome, hx(r.out))
+		}
+		c.Case("cond_exec", fields...)
+	})
 	// attr_exec: <element> <attribute> <quote dq|sq> <static prefix inside the value> <value wire>
 	reg("attr_exec", 5, func(c *caseWriter, in []string) {
 		q := map[string]string{"dq": `"`, "sq": `'`}[in[2]]
@@ -108,6 +120,18 @@ func runC03(c *caseWriter) (string, bool, map[string]int) {
 			emit(c, "attr_exec", "img", "src", "dq", "/i/", w)
 			emit(c, "attr_exec", "div", "title", "dq", "t: ", w)
 			emit(c, "attr_exec", "a", "data-x", "dq", "", w)
+		}
+	}
+	// attribute names chosen by a branch, both orders, with safe values whose contents a sanitizer would change
+	condPairs := [][3]string{{"input", "src", "formaction"}, {"a", "href", "title"}, {"a", "href", "ping"}, {"img", "src", "alt"}, {"img", "src", "srcset"}, {"iframe", "src", "title"}, {"script", "src", "type"},
+		{"link", "href", "title"}, {"form", "action", "title"}, {"button", "formaction", "value"}, {"video", "src", "poster"}, {"a", "href", "id"}, {"div", "title", "id"}, {"div", "style", "title"}, {"a", "href", "target"},
+		{"img", "alt", "title"}, {"a", "title", "lang"}, {"form", "action", "action"}, {"q", "cite", "title"}, {"input", "formaction", "formaction"}, {"img", "src", "src"}, {"script", "src", "src"}}
+	for _, cp := range condPairs {
+		for _, s := range []string{"javascript:alert(1)", "https://a.example/w", "\"><b onmouseover=\"alert(1)\">", "x y"} {
+			for _, w := range []string{"str:" + hx(s), "safe:url:" + hx(s), "safe:tru:" + hx(s), "ptr:safe:tru:" + hx(s), "safe:html:" + hx(s), "safe:identifier:" + hx(s), "safe:style:" + hx(s), "safe:script:" + hx(s)} {
+				emit(c, "cond_exec", cp[0], cp[1], cp[2], w)
+				emit(c, "cond_exec", cp[0], cp[2], cp[1], w)
+			}
 		}
 	}
 	// link rel: allow-listed values, style-sheet and module rels, values that merely CONTAIN an
